@@ -54,10 +54,15 @@ class Result:
         self.violation_total = 0  # executions/cases in violation (may exceed len(violations))
         self.harness_errors: List[str] = []
         self.parts: Dict[str, Any] = {}
+        self._per_sig: Dict[str, int] = {}
 
     def add_violation(self, sig, message, replay):
         self.violation_total += 1
-        if len(self.violations) < 400:
+        k = json.dumps(sig, sort_keys=True, default=repr)
+        self._per_sig[k] = self._per_sig.get(k, 0) + 1
+        # every distinct signature is kept (first few examples of each), so a rare class can never be
+        # crowded out by a frequent one
+        if self._per_sig[k] <= 6:
             self.violations.append(Violation(sig, message, replay))
 
 
